@@ -401,6 +401,9 @@ func featC13(m *gen.Mixed, ts *gen.TieSetup, p *modelParams) {
 	dsts := []fat2.PTicker{fat2.PTickerFCT, fat2.PTickerPEG, fat2.PTickerDCR, fat2.PTickerRVN, fat2.PTickerDOGE, fat2.PTickerUGX, fat2.PTickerBAT, fat2.PTickerALGO,
 		fat2.PTickerEUR, fat2.PTickerXBT, fat2.PTickerADA, fat2.PTickerAUD, fat2.PTickerNEO, fat2.PTickerHBAR, fat2.PTickerKES, fat2.PTickerETB}
 	acts := []uint32{e.PEGPricing, e.OneWaypFCT, e.ConversionLimit, e.V4, e.V20, e.V20Dev, e.V202, e.V204, e.PIP10}
+	if e.OneWaySmall != e.V202 {
+		acts = append(acts, e.OneWaySmall)
+	}
 	ki := 0
 	// a conversion into PEG entered in the last block(s) before 2.0 is executed at a 2.0 height, where it
 	// is forbidden — also when the first 2.0 block has no rates and it is considered one block later
@@ -419,6 +422,15 @@ func featC13(m *gen.Mixed, ts *gen.TieSetup, p *modelParams) {
 			delete(m.ForceGraded, e.V20)
 			m.ForceUngraded[e.V20] = true
 			m.ForceGraded[e.V20+1] = true
+		}
+		// the blocks AT the two one-way activations have no rates in half of the profiles: nothing is executed at the
+		// activation height itself, the first conversions judged under the new rule execute one block later
+		for _, a := range []uint32{e.OneWaypFCT, e.OneWaySmall} {
+			if (p.Seed+int64(a))%2 == 0 && a%144 != 0 && a != e.V20 && a > first+3 {
+				delete(m.ForceGraded, a)
+				m.ForceUngraded[a] = true
+				m.ForceGraded[a+1] = true
+			}
 		}
 	}()
 	for _, a := range acts {
@@ -441,8 +453,8 @@ func featC13(m *gen.Mixed, ts *gen.TieSetup, p *modelParams) {
 					if !in[dst] {
 						continue
 					}
-					if dst == fat2.PTickerPEG && hh+1 >= e.ConversionLimit && hh+1 < e.V20 {
-						continue // bank-era PEG requests are C16's subject
+					if dst == fat2.PTickerPEG && hh+1 >= e.ConversionLimit && hh+1 < e.V20 && hh+1 < e.OneWaySmall {
+						continue // bank-era PEG requests are C16's subject (unless PEG is already a one-way destination)
 					}
 					k := ks[ki%len(ks)]
 					ki++
@@ -729,6 +741,24 @@ func featC16(m *gen.Mixed, ts *gen.TieSetup, p *modelParams) {
 						txs = append(txs, forge.Conversion(k.FA(), fat2.PTickerUSD, 1+a1/3, fat2.PTickerPEG))
 					}
 					s.Tx = append(s.Tx, forge.SignedBatch(txs, m.W.EntryTime(h)+119, k))
+				}
+			}
+			// the largest amount requested several times, in different entries and at different positions of
+			// multi-request batches: the dust goes to the lowest transaction id (entry hash first, index second)
+			if rng.Intn(3) == 0 {
+				x := bankUSD/2 + 7 + uint64(rng.Intn(1000))
+				small := uint64(1000 + rng.Intn(5000))
+				var who []forge.Key
+				for _, k := range ks {
+					if len(who) < 3 && v.Balances.Get(k.FA(), fat2.PTickerUSD) > x+2*small+10 {
+						who = append(who, k)
+					}
+				}
+				if len(who) == 3 {
+					conv := func(k forge.Key, a uint64) forge.Tx { return forge.Conversion(k.FA(), fat2.PTickerUSD, a, fat2.PTickerPEG) }
+					s.Tx = append(s.Tx, forge.SignedBatch([]forge.Tx{conv(who[0], small), conv(who[0], x)}, m.W.EntryTime(h)+121, who[0]))
+					s.Tx = append(s.Tx, forge.SignedBatch([]forge.Tx{conv(who[1], x)}, m.W.EntryTime(h)+122, who[1]))
+					s.Tx = append(s.Tx, forge.SignedBatch([]forge.Tx{conv(who[2], x), conv(who[2], small+1)}, m.W.EntryTime(h)+123, who[2]))
 				}
 			}
 			// dust next to a request far above the bank: the share rounds down to 0 PEG while the refund of
